@@ -9,6 +9,7 @@ Section Struct.
   Variable s : nat.
   Variable hnode : list N -> digest.
   Hypothesis Hlen_node : forall b, length (hnode b) = s.
+  #[local] Set Default Proof Using "Hlen_node".
 
   Notation pairbuf := (pairbuf s).
   Notation hpair := (hpair s hnode).
@@ -436,5 +437,103 @@ Section Struct.
           -- right. unfold claimsOf. cbn. lia.
         * unfold hs, P'. apply up_complete; assumption.
       + apply Forall_app. split; [apply upP_hints_ok; assumption | exact E3].
+  Qed.
+  (* ---- one whole up() ---- *)
+  Lemma upV_props : forall n pl hints pl' hints', (length pl <= n)%nat ->
+    upV pl hints = inl (pl', hints') ->
+    (forall it, In it pl' -> exists b, snd it = hnode b) /\
+    (exists used, hints = used ++ hints') /\
+    (pl <> [] -> pl' <> []) /\ (length pl' <= length pl)%nat.
+  Proof.
+    induction n as [|n IH]; intros pl hints pl' hints' Hn Hu.
+    - destruct pl; [|cbn in Hn; lia]. cbn in Hu. inversion Hu; subst.
+      repeat split; [intros ? [] | exists []; reflexivity | tauto | lia].
+    - destruct pl as [|[pos h] rest].
+      + cbn in Hu. inversion Hu; subst.
+        repeat split; [intros ? [] | exists []; reflexivity | tauto | lia].
+      + destruct (upV_cases pos rest) as [(h2 & rest2 & ->)|Hnp].
+        * rewrite upV_paired in Hu. destruct (combine pos h h2) as [nh|] eqn:Ec; [|discriminate].
+          destruct (upV rest2 hints) as [[r hs]|e] eqn:Er; [|discriminate]. cbn in Hu. inversion Hu; subst.
+          destruct (IH rest2 hints r hints' ltac:(cbn in Hn; lia) Er) as (I1 & I2 & I3 & I4).
+          repeat split.
+          -- intros it [<-|Hit]; [|apply I1; assumption]. cbn.
+             unfold MerkleArray.combine in Ec. destruct (N.even pos); destruct (_ <? _)%nat; inversion Ec; unfold MerkleArray.hpair; eauto.
+          -- exact I2.
+          -- discriminate.
+          -- cbn [length] in *. lia.
+        * rewrite upV_hint in Hu by assumption.
+          destruct hints as [|sh hints1]; [discriminate|]. cbn [MerkleArray.stepHint] in Hu.
+          destruct (combine pos h sh) as [nh|] eqn:Ec; [|discriminate].
+          destruct (upV rest hints1) as [[r hs]|e] eqn:Er; [|discriminate]. cbn in Hu. inversion Hu; subst.
+          destruct (IH rest hints1 r hints' ltac:(cbn in Hn; lia) Er) as (I1 & (used & I2) & I3 & I4).
+          repeat split.
+          -- intros it [<-|Hit]; [|apply I1; assumption]. cbn.
+             unfold MerkleArray.combine in Ec. destruct (N.even pos); destruct (_ <? _)%nat; inversion Ec; unfold MerkleArray.hpair; eauto.
+          -- exists (sh :: used). rewrite I2. reflexivity.
+          -- discriminate.
+          -- cbn [length] in *. lia.
+  Qed.
+
+  Lemma upV_err_not_ok : forall n pl hints e, (length pl <= n)%nat -> upV pl hints = inr e -> e <> VOk.
+  Proof.
+    induction n as [|n IH]; intros pl hints e Hn Hu.
+    - destruct pl; [cbn in Hu; discriminate | cbn in Hn; lia].
+    - destruct pl as [|[pos h] rest]; [cbn in Hu; discriminate|].
+      destruct (upV_cases pos rest) as [(h2 & rest2 & ->)|Hnp].
+      + rewrite upV_paired in Hu. destruct (combine pos h h2) as [nh|]; [|inversion Hu; discriminate].
+        destruct (upV rest2 hints) as [[r hs]|e'] eqn:Er; [discriminate|]. cbn in Hu. inversion Hu; subst.
+        apply (IH rest2 hints); [cbn in Hn; lia | assumption].
+      + rewrite upV_hint in Hu by assumption.
+        destruct hints as [|sh hints1]; [cbn in Hu; inversion Hu; discriminate|]. cbn [MerkleArray.stepHint] in Hu.
+        destruct (combine pos h sh) as [nh|]; [|inversion Hu; discriminate].
+        destruct (upV rest hints1) as [[r hs]|e'] eqn:Er; [discriminate|]. cbn in Hu. inversion Hu; subst.
+        apply (IH rest hints1); [cbn in Hn; lia | assumption].
+  Qed.
+
+  (* ---- the loop ---- *)
+  Lemma vloop_unfold : forall fuel root pl hints,
+    vloop fuel root pl hints =
+    match hints, (length pl <=? 1)%nat with
+    | [], true => inspectRoot root pl
+    | _, _ => match fuel with
+              | O => VOutOfFuel
+              | S f => match upV pl hints with
+                       | inr e => e
+                       | inl (pl', hints') => vloop f root pl' hints'
+                       end
+              end
+    end.
+  Proof. intros [|f] root pl hints; reflexivity. Qed.
+
+
+  Lemma vloop_O : forall root pl hints, vloop 0 root pl hints = VOk ->
+    hints = [] /\ (length pl <= 1)%nat /\ inspectRoot root pl = VOk.
+  Proof.
+    intros root pl hints H. rewrite vloop_unfold in H.
+    destruct hints; [|discriminate H]. destruct (Nat.leb_spec (length pl) 1); [|discriminate H]. auto.
+  Qed.
+
+  Lemma vloop_S : forall f root pl hints, vloop (S f) root pl hints = VOk ->
+    (hints = [] /\ (length pl <= 1)%nat /\ inspectRoot root pl = VOk) \/
+    (exists pl' hints', upV pl hints = inl (pl', hints') /\ vloop f root pl' hints' = VOk).
+  Proof.
+    intros f root pl hints H. rewrite vloop_unfold in H.
+    assert (G : match upV pl hints with
+                | inr e => e
+                | inl (pl', hints') => vloop f root pl' hints'
+                end = VOk ->
+                exists pl' hints', upV pl hints = inl (pl', hints') /\ vloop f root pl' hints' = VOk).
+    { intros G. destruct (upV pl hints) as [[pl' hints']|e] eqn:Eu; [eauto|].
+      exfalso. apply (upV_err_not_ok (length pl) pl hints e (le_n _) Eu). exact G. }
+    destruct hints; [|right; apply G; exact H].
+    destruct (Nat.leb_spec (length pl) 1); [left; auto | right; apply G; exact H].
+  Qed.
+
+  Lemma inspectRoot_ok : forall root pl, inspectRoot root pl = VOk ->
+    exists rest, pl = (0%N, root) :: rest.
+  Proof.
+    intros root pl H. unfold inspectRoot in H. destruct pl as [|[p h] rest]; [discriminate H|].
+    destruct (N.eqb_spec p 0); [|discriminate H]. cbn [andb] in H.
+    destruct (digest_eqb h root) eqn:E1; [|discriminate H]. apply digest_eqb_eq in E1. subst. eauto.
   Qed.
 End Struct.
